@@ -10,7 +10,7 @@ Hypothesis Hbase : forall h, (forall ms, h <> HUnion ms) -> P h.
 Hypothesis Hunion : forall ms, Forall P ms -> P (HUnion ms).
 Lemma head_ind' : forall h, P h.
 Proof.
-  fix IH 1. intros h. destruct h as [ | | | | | | | | | | | | | | | | | vals | ms];
+  fix IH 1. intros h. destruct h as [ | | | | | | | | | | | | | | | | | | | vals | ms];
     try (apply Hbase; intros ms0 Hc; discriminate Hc).
   apply Hunion. induction ms as [|m r IHr]; constructor; [apply IH | exact IHr].
 Qed.
@@ -178,6 +178,15 @@ Proof.
     apply list_N_eqb_true in Hg; subst q; cbn [bind]; rewrite Ein; reflexivity.
 Qed.
 
+Lemma entry_enum_carrier : forall k s, encodable s = true ->
+  entry rt rest whole sup HEnum (carrier rt k s) = entry rt rest whole sup HEnum (PStr s).
+Proof.
+  intros k s He. pose proof (decode_text_carrier k s He) as Hd.
+  pose proof (load_carrier k s He) as Hl. unfold load in Hl.
+  destruct k; try reflexivity; cbn [carrier] in *; unfold entry; cbn [entry_gen];
+    rewrite Hd, Hl; unfold decode_text; cbn [tobytes]; reflexivity.
+Qed.
+
 Lemma entry_carrier : forall h k s, encodable s = true -> c14_guard rt h s = true ->
   entry rt rest whole sup h (carrier rt k s) = entry rt rest whole sup h (PStr s).
 Proof.
@@ -185,11 +194,12 @@ Proof.
     entry rt rest whole sup h (carrier rt k s) = entry rt rest whole sup h (PStr s))).
   - intros h Hnu Hg. pose proof (decode_text_carrier k s He) as Hd.
     pose proof (load_carrier k s He) as Hl.
-    destruct h as [ | | | | | | | | | | | | | | | | | vals | ms];
+    destruct h as [ | | | | | | | | | | | | | | | | | | | vals | ms];
       try discriminate Hg;
       try (destruct k; cbn [carrier] in *; unfold entry; cbn [entry_gen];
            try rewrite Hd; reflexivity);
       try (unfold entry; cbn [entry_gen]; unfold load in Hl; rewrite Hl; reflexivity).
+    + exact (entry_enum_carrier k s He).
     + exact (entry_literal_carrier vals k s He Hg).
     + exfalso. exact (Hnu ms eq_refl).
   - intros ms HF Hg. unfold entry. rewrite !entry_union. rewrite guard_union in Hg.
